@@ -62,6 +62,22 @@ theorem shot_gaussian_support (lamMax : K) (sqrt : K → K) (trunc : K → Int) 
   obtain ⟨h1, h2⟩ := hsq (img i) hpos
   nlinarith [mul_le_mul_of_nonneg_left hz h2]
 
+/-- the documented regime, unconditionally: a normal draw within `k` standard deviations on a count of at least `k²` gives a
+non-negative result (for the documented `count > 1000` that is every draw within 31 σ) -/
+theorem shot_gaussian_nonneg_in_regime (lamMax : K) (sqrt : K → K) (trunc : K → Int) (z : Int → Nat → K)
+    (hsq : ∀ y, 0 ≤ y → sqrt y * sqrt y = y ∧ 0 ≤ sqrt y) (htr : ∀ y, 0 ≤ y → 0 ≤ trunc y)
+    (seed : Int) (n : Nat) (img : Nat → K) (v : Nat → Int) (h : shotGaussian lamMax sqrt trunc z seed n img = some v)
+    (i : Nat) (hi : i < n) (k : K) (hk : 0 ≤ k) (hz : -k ≤ z seed i) (hreg : k * k ≤ img i) : 0 ≤ v i := by
+  apply shot_gaussian_support lamMax sqrt trunc z hsq htr seed n img v h i hi
+  have hpos : 0 ≤ img i := le_trans (mul_nonneg hk hk) hreg
+  obtain ⟨h1, h2⟩ := hsq (img i) hpos
+  have hks : k ≤ sqrt (img i) := by
+    by_contra hlt
+    have hlt' : sqrt (img i) < k := not_le.mp hlt
+    have : sqrt (img i) * sqrt (img i) < k * k := mul_lt_mul'' hlt' hlt' h2 h2
+    rw [h1] at this; exact absurd hreg (not_le.mpr this)
+  linarith
+
 example : shotGaussian (K := ℚ) 100 (fun y => y) (fun _ => 0) (fun _ _ => 0) 0 2 (fun i => if i = 0 then 4 else -1) = none := by
   decide +kernel
 
@@ -93,10 +109,12 @@ theorem dark_fpn_nonneg (fpn : Int → Nat → K) (hfpn : ∀ s i, 0 < fpn s i) 
 /-- the Rule-07 dark frame is the `dark_current` frame of its rate **for the same seed**: its fixed-pattern noise is the
 lognormal draw of that seed (so two calls with equal arguments and seed agree), and without pattern noise it is `floor(rate)` -/
 theorem rule07_forwards_seed (fpn : Int → Nat → K) (rate f : K) (seed : Int) (i : Nat) :
+    -- regenerated call site: `rule07_dark_current` passes its own `seed` in `dark_current`'s seed position
+    (Gen.effTable.filter fun r => r.fn == "detector.rule07_dark_current").map (·.seedForward) = [[("detector.dark_current", "seed")]] ∧
     rule07Dark Int.floor fpn rate f seed i = darkCurrent Int.floor fpn rate f seed i ∧
     (0 < f → rule07Dark Int.floor fpn rate f seed i = ⌊rate * fpn seed i⌋) ∧
     (¬ 0 < f → rule07Dark Int.floor fpn rate f seed i = ⌊rate⌋) := by
-  refine ⟨rfl, fun h => by simp [rule07Dark, darkCurrent, h], fun h => by simp [rule07Dark, darkCurrent, h]⟩
+  refine ⟨by decide +kernel, rfl, fun h => by simp [rule07Dark, darkCurrent, h], fun h => by simp [rule07Dark, darkCurrent, h]⟩
 end
 
 /-! ## power_spectrum -/
@@ -128,6 +146,12 @@ theorem power_spectrum_rms_exact [LinearOrder K] [IsStrictOrderedRing K] (sqrt :
   rw [← hSdef]
   field_simp
 
+/-- the surface scales linearly with the requested RMS (and nothing else depends on it) -/
+theorem power_spectrum_homogeneous (sqrt : K → K) (rms k : K) (mask : Nat → K) (x : Int → Nat → K) (seed : Int) (n i : Nat) :
+    powerSpectrum (fun y => decide (y ≠ 0)) sqrt (· / ·) (fun k => (k : K)) (k * rms) mask x seed n i
+      = k * powerSpectrum (fun y => decide (y ≠ 0)) sqrt (· / ·) (fun k => (k : K)) rms mask x seed n i := by
+  simp only [powerSpectrum]; ring
+
 /-- once a map has mean square `rms²` over its `c` non-zero pixels, normalising it again multiplies it by exactly 1 — the
 normalisation the code applies is a projection (this is what the correspondence op `st.power` checks on the returned map) -/
 theorem power_spectrum_fixed_point [LinearOrder K] [IsStrictOrderedRing K] (sqrt : K → K) (hsqr : ∀ y, 0 ≤ y → sqrt (y * y) = y)
@@ -151,13 +175,20 @@ theorem frequency_grid_per_axis (rows cols i j : Int) :
 
 /-! ## reproducibility -/
 
-/-- every seeded model is a function of its arguments and seed only (regenerated part): the effect-site scan finds, for each
-function that builds `default_rng(seed)`, no use of the global generator, of a cache or of a module global, and no
-in-place write to an argument; in the model the wrappers take the sampler, the seed and the arguments and nothing else -/
+/-- every seeded model is a function of its arguments and seed only (regenerated part, read off the source on every run):
+each function that takes a `seed` either builds its generator as `default_rng(seed)` — the bare parameter, nothing derived
+from it (`seed % 2**32`, `seed or 0`, no argument) — or hands `seed` on unchanged to such a function (`rule07_dark_current →
+dark_current`); none of them touches the global generator, a cache or a module global, or writes an argument in place;
+in the model the wrappers take the sampler, the seed and the arguments and nothing else -/
 theorem seeded_is_function_of_args :
-    (Gen.effTable.filter (·.seeded)).map (fun r => (r.fn, r.globalRng, r.writes, r.cacheWrites, r.globalWrites)) =
-      [("detector.dark_current", false, [], [], []), ("detector.read_noise", false, [], [], []),
-       ("detector.shot_noise", false, [], [], []), ("wfe.power_spectrum", false, [], [], [])] := by decide +kernel
+    (Gen.effTable.filter fun r => r.seeded || !r.seedForward.isEmpty).map (fun r => (r.fn, r.rngArgs, r.seedForward)) =
+      [("detector.dark_current", ["seed"], []), ("detector.read_noise", ["seed"], []),
+       ("detector.rule07_dark_current", [], [("detector.dark_current", "seed")]),
+       ("detector.shot_noise", ["seed"], []), ("wfe.power_spectrum", ["seed"], [])] ∧
+    (Gen.effTable.filter fun r => r.seeded || !r.seedForward.isEmpty).map
+        (fun r => (r.globalRng, r.writes, r.cacheWrites, r.globalWrites)) = List.replicate 5 (false, [], [], []) ∧
+    -- no other function builds a generator at all
+    (Gen.effTable.filter fun r => !r.rngArgs.isEmpty && !r.seeded).map (·.fn) = [] := by decide +kernel
 
 /-! ## cosmic rays -/
 
